@@ -491,9 +491,12 @@ def _atom(t, env, W):
             if r is not OPAQUE:
                 return r
         if name in ARITH_METHODS and not m.group(2):
-            r = _arith(name, label, [ev(a, env, W) for a in t[2]], W)
-            if r is not OPAQUE:
-                return r
+            # the trusted meaning is used only for loop terminals; a callee with a summarisable (acyclic) body is
+            # analysed, not trusted - except the forced atoms, whose own leaves are loop terminals
+            if name in FORCED_ATOMS or not _is_local_wrapper(label):
+                r = _arith(name, label, [ev(a, env, W) for a in t[2]], W)
+                if r is not OPAQUE:
+                    return r
         return _descend(label, m.group(2), t, env, W)
     args = [ev(a, env, W) for a in t[2]]
     adt = _adt_of_label(label)
@@ -831,6 +834,17 @@ def _arith(name, label, args, W, generics=None):
         if name == "reverse_bits":
             return W.wrap(adt, int(bin(x)[2:].zfill(w)[::-1], 2))
     return OPAQUE
+
+
+FORCED_ATOMS = {"div_rem_unchecked"}
+
+
+def _is_local_wrapper(label):
+    if _DESCEND is None:
+        return False
+    S, F = _DESCEND
+    root = F.root_of(label)
+    return root is not None and S.is_wrapper(root, as_root=True)
 
 
 _DESCEND = None        # set by core: (Summarizer, Facts)
